@@ -154,6 +154,12 @@ def run(tier):
                                     ["0", "0", "0", "0", "1"], ["0", "0", "0", "1", "0"]],
          "v": ["0", "5", "7", "1", "2"], "consts": None, "subs": {}},
         {"kind": "corpus-fib", "A": [["0", "1"], ["1", "1"]], "v": ["0", "1"], "consts": None, "subs": {}},
+        # characteristic polynomial (x - 2)(x^3 - 3x + 1): an irreducible cubic with three real roots (CRootOf) next to a larger
+        # rational eigenvalue; with numeric_croots the result is rounded and must be flagged so (seeded change C04_D)
+        {"kind": "corpus-croots-cubic", "A": [["0", "1", "0", "0"], ["0", "0", "1", "0"], ["-1", "3", "0", "0"], ["1", "0", "0", "2"]],
+         "v": ["1", "0", "2", "1"], "consts": None, "subs": {}},
+        {"kind": "corpus-croots-cubic2", "A": [["3", "1", "0", "0"], ["0", "0", "1", "0"], ["0", "0", "0", "1"], ["0", "1", "-3", "0"]],
+         "v": ["1", "1", "0", "2"], "consts": None, "subs": {}},
         {"kind": "corpus-nilpotent3", "A": [["0", "1", "0"], ["0", "0", "1"], ["0", "0", "0"]], "v": ["1", "2", "3"],
          "consts": ["1", "0", "2"], "subs": {}},
     ]
@@ -167,6 +173,9 @@ def run(tier):
         s["nvals"] = nvals
         jobs.append((s, False, None))
         jobs.append((s, True, None))
+        if s["kind"].startswith("corpus-croots"):
+            jobs.append((s, True, {"numeric_croots": True}))
+            jobs.append((s, False, {"numeric_croots": True}))
         if len(jobs) % 5 == 0 and not s["subs"]:
             jobs.append((s, True, r.choice([{"numeric_roots": True, "numeric_eps": 1e-12}, {"numeric_croots": True},
                                             {"numeric_roots": True, "numeric_eps": 1e-30}])))
